@@ -176,6 +176,74 @@ def _instance_of_value(v):
     return eval_value(v)()
 
 
+def _K(f, n):
+    return FAM[f][n]
+
+
+def _Q(q, direction, wrapped):
+    return Port[wrapped, DIRS[direction]] if q == "Port" else QUAL[q][wrapped]
+
+
+# operations that PRODUCE an object of a parametrised type; the class of the result must be the canonical one.
+# primitive level: descriptor (family, 'D', n)
+P_PRODUCERS = {
+    "p_cast": lambda f, n: type({"U": lambda: BitVector[n]().unsigned, "S": lambda: BitVector[n]().signed,
+                                 "BV": lambda: Unsigned[n]().bitvector}[f]()),
+    "p_cast2": lambda f, n: type({"U": lambda: Signed[n]().unsigned, "S": lambda: Unsigned[n]().signed,
+                                  "BV": lambda: Signed[n]().bitvector}[f]()),
+    "p_slice": lambda f, n: type(_K("U", n + 1)()[n:1]),
+    "p_msb": lambda f, n: type(BitVector[n + 1]().msb(n)),
+    "p_lsb": lambda f, n: type(Signed[n + 1]().lsb(n)),
+    "p_concat": lambda f, n: type(BitVector[n - 1]() @ Bit()),
+    "p_op": lambda f, n: type(~BitVector[n]()) if f == "BV" else type(_K(f, n)(0) + _K(f, n)(0)),
+    "p_resize": lambda f, n: type(_K(f, 1)(0).resize(n)),
+    "p_copy": lambda f, n: type(_K(f, n)().copy()),
+    "p_arr": lambda f, n: type(Array[_K(f, n), 2]()[0]),
+}
+P_PRODUCER_FAMS = {"p_cast": "USB", "p_cast2": "USB", "p_slice": "B", "p_msb": "B", "p_lsb": "B", "p_concat": "B",
+                   "p_op": "USB", "p_resize": "US", "p_copy": "USB", "p_arr": "USB"}
+# qualified level: descriptor ('Q', q, dir, (family, 'D', n))
+Q_PRODUCERS = {
+    "q_cast2": lambda q, d, v: type({"U": lambda: _Q(q, d, Signed[v[2]])().unsigned, "S": lambda: _Q(q, d, Unsigned[v[2]])().signed,
+                                     "BV": lambda: _Q(q, d, Signed[v[2]])().bitvector}[v[0]]()),
+    "q_slice": lambda q, d, v: type(_Q(q, d, Unsigned[v[2] + 1])()[v[2]:1]),
+    "q_msb": lambda q, d, v: type(_Q(q, d, BitVector[v[2] + 1])().msb(v[2])),
+    "q_lsb": lambda q, d, v: type(_Q(q, d, Signed[v[2] + 1])().lsb(v[2])),
+    "q_arr": lambda q, d, v: type(_Q(q, d, Array[_K(v[0], v[2]), 2])()[0]),
+    # results of operators are Temporary objects
+    "t_concat": lambda q, d, v: type(Signal[BitVector[v[2] - 1]]() @ Bit()),
+    "t_op": lambda q, d, v: type(Signal[BitVector[v[2]]]() & Variable[BitVector[v[2]]]()) if v[0] == "BV" else type(Signal[_K(v[0], v[2])](0) + Variable[_K(v[0], v[2])](0)),
+    "t_resize": lambda q, d, v: type(Signal[_K(v[0], 1)](0).resize(v[2])),
+    "t_copy": lambda q, d, v: type(Signal[_K(v[0], v[2])]().copy()),
+}
+Q_PRODUCER_FAMS = {"q_cast2": "USB", "q_slice": "B", "q_msb": "B", "q_lsb": "B", "q_arr": "USB",
+                   "t_concat": "B", "t_op": "USB", "t_resize": "US", "t_copy": "USB"}
+_FAMCODE = {"U": "U", "S": "S", "BV": "B"}
+
+
+def producer_alphabet(widths, qkinds=None):
+    """every way of obtaining 'K of width n, downto' other than writing K[n]"""
+    qkinds = QKINDS if qkinds is None else qkinds
+    ex = []
+    for n in widths:
+        for f in ("BV", "U", "S"):
+            for r, fams in P_PRODUCER_FAMS.items():
+                if _FAMCODE[f] in fams and not (r == "p_concat" and n < 2):
+                    ex.append((r, (f, "D", n)))
+            for q, direction in qkinds:
+                d = ("Q", q, direction, (f, "D", n))
+                for r in ("view_u", "view_s", "view_b"):
+                    if {"view_u": "U", "view_s": "S", "view_b": "BV"}[r] == f:
+                        ex.append((r, d))
+                for r, fams in Q_PRODUCER_FAMS.items():
+                    if r.startswith("q_") and _FAMCODE[f] in fams:
+                        ex.append((r, d))
+            for r, fams in Q_PRODUCER_FAMS.items():
+                if r.startswith("t_") and _FAMCODE[f] in fams and not (r == "t_concat" and n < 2):
+                    ex.append((r, ("Q", "Temporary", None, (f, "D", n))))
+    return ex
+
+
 def eval_expr(e):
     """Perform the 'first use' described by expression e and return the class it yields."""
     route, d = e
@@ -183,6 +251,8 @@ def eval_expr(e):
         return eval_desc(d)
     if route == "slice":
         return eval_desc(d, "slice")
+    if route in P_PRODUCERS:
+        return P_PRODUCERS[route](d[0], d[2])
     _, q, direction, v = d
     if route == "inst":
         return type(eval_desc(d)())
@@ -201,6 +271,8 @@ def eval_expr(e):
     if route == "index":
         src = eval_desc(("Q", q, direction, ("BV", "D", 2)))()
         return type(src[0])
+    if route in Q_PRODUCERS:
+        return Q_PRODUCERS[route](q, direction, v)
     raise ValueError(e)
 
 
@@ -345,8 +417,12 @@ def value_alphabet(widths, arr_elems, arr_counts, upto_widths):
     return vals, arrays
 
 
-def alphabet(widths, arr_elems, arr_counts, upto_widths, route_widths=(), qkinds=None, bare=True, atoms=True, slice_widths=()):
+def alphabet(widths, arr_elems, arr_counts, upto_widths, route_widths=(), qkinds=None, bare=True, atoms=True, slice_widths=(),
+             producer_widths=()):
     """list of expressions (route, descriptor)"""
+    if producer_widths:
+        return alphabet(widths, arr_elems, arr_counts, upto_widths, route_widths, qkinds, bare, atoms, slice_widths) + \
+            producer_alphabet(producer_widths, qkinds)
     qkinds = QKINDS if qkinds is None else qkinds
     vals, arrays = value_alphabet(widths, arr_elems, arr_counts, upto_widths)
     ex = []
